@@ -361,6 +361,16 @@ def hand(classes: list[str], ops: list[str], aliases=(), bounds=(), sub=()) -> s
     return f"{hdr} (classes {' '.join(classes)}) (ops {' '.join(ops)})"
 
 
+
+def extra_obligations():
+    """small methods of `State` / `StateAttribute` regenerated from /repo's structure.py as MiniPy terms: `__setattr__` and
+    `__delattr__` refuse with AttributeError whatever the arguments, `__copy__` / `__deepcopy__` return the instance itself,
+    `StateAttribute.validated` applies the validator exactly once - to the default iff the argument *is* MISSING"""
+    from harness import core, regen
+
+    return [e for e in regen.check("stateobj", core.REPO, core.LEAN)]
+
+
 def corpus():
     I, S = "(cls 3)", "(cls 5)"
     plain = lambda cid, attrs, rel="-": f"(class {cid} (params) (tp) (attrs {attrs}) {rel})"  # noqa: E731
